@@ -47,6 +47,24 @@ def _code_objects():
     return out
 
 
+def all_lines(files):
+    """[(basename, lineno, qualname)] for every statement line of every function in the given s3transfer files."""
+    import dis
+
+    out = []
+    seen = set()
+    for co in _code_objects():
+        base = os.path.basename(co.co_filename)
+        if base not in files:
+            continue
+        for _, ln in dis.findlinestarts(co):
+            if ln is None or ln == co.co_firstlineno or (base, ln) in seen:
+                continue
+            seen.add((base, ln))
+            out.append((base, ln, co.co_qualname))
+    return sorted(out)
+
+
 def find_line(filename, text, nth=0):
     """Line number (1-based) of the nth source line containing ``text``."""
     path = os.path.join(os.path.dirname(s3transfer.__file__), filename)
@@ -100,6 +118,16 @@ class Injector:
                     if k == w.get('nth', 0):
                         w['fired'] = True
                         self.window_hits[w.get('name', f'{w["file"]}:{line}')] = threading.current_thread().name
+                        if w.get('action') == 'pause':
+                            # preempt this thread here until every other thread has run as far as it can
+                            from . import watchdog
+
+                            end = time.monotonic() + w.get('wait', 0.3)
+                            with watchdog.polling():
+                                while time.monotonic() < end:
+                                    if watchdog.quiescent(gap=0.001):
+                                        break
+                            continue
                         done = threading.Event()
 
                         def run(w=w, done=done):
